@@ -1050,7 +1050,7 @@ func TestVerifC12Leveled(t *testing.T) {
 				len(b.valid), len(b.valid)*len(b.valid), len(b.modes), k.NTok, tailTxt, b.size)
 		}
 		ds := mc.NewDistinctSet()
-		done, complete := env.ParallelRangeL(res, total, func(l *mc.Local, i int64) {
+		judgeAt := func(l *mc.Local, i int64) {
 			var b *c12Block
 			for bi := range blocks {
 				if i < blocks[bi].size {
@@ -1075,7 +1075,19 @@ func TestVerifC12Leveled(t *testing.T) {
 				c.Then = b.valid[i/nv]
 			}
 			c12Judge(rigs[l.Worker], kinds, c, res, l, ds)
-		})
+		}
+		done, complete := env.ParallelRangeL(res, total, judgeAt)
+		if env.Shard == 0 && res.Evaluations == 0 && total > 0 {
+			// the budget was already used up when this part was reached: shard 0 still explores the first chunk, so
+			// that the part is reported as a cap with real counts and one example instead of as an empty shell
+			mini := &mc.Env{Tier: env.Tier, Workers: 1, Shards: 1, Budget: time.Duration(math.MaxInt64)}
+			first := total
+			if first > 256 {
+				first = 256
+			}
+			done, _ = mini.ParallelRangeL(res, first, func(l *mc.Local, i int64) { judgeAt(l, i) })
+			complete = complete && first == total
+		}
 		res.Traces = res.Evaluations
 		res.Distinct = ds.Len()
 		res.Exhaustive = complete
